@@ -516,7 +516,10 @@ func (e *Engine) lemmaObligations(prop string) ([]*Obligation, error) {
 		if !hasProp(l.Props, prop) {
 			continue
 		}
-		x := &Exec{eng: e, sc: NewScript(), arraySort: map[string]string{}, Notes: map[string]int{}, UsedTrust: map[string]bool{}, Inlined: map[string]bool{}, specDone: map[string]bool{}}
+		x := &Exec{eng: e, sc: NewScript(), arraySort: map[string]string{}, Notes: map[string]int{}, UsedTrust: map[string]bool{}, Inlined: map[string]bool{}, specDone: map[string]bool{}, revealed: map[string]bool{}}
+		for _, sf := range e.CS.Specs {
+			x.revealed[sf.Name] = true // lemmas are about the definitions
+		}
 		st := x.newEpochState()
 		env := &Env{x: x, vars: map[string]Val{}, st: st, old: st, reach: "true", imports: l.Imports, pkgPath: l.PkgPath}
 		t, err := env.evalBool(l.E)
